@@ -13,7 +13,7 @@ WHAT = dict(
  C02="`Header<()>`: decode(encode(h)) reproduces every field for all values and shapes (⇒ the encoding is injective)",
  C03="one inductive step: accepted ⇒ exactly the next hash-linked entry of the same author; the correctly linked next operation is accepted",
  C05="nothing is accepted at or below the stored height, with or without prune flag; newer prune points still accepted",
- C06="diff exact + merge law: 1 author × 2 logs all 25 shape pairs, 7 two-author shape pairs (thorough: all 16×16), all u32 heights",
+ C06="diff exact + merge law: 1 author × 2 logs all 25 shape pairs, 7 two-author shape pairs (thorough: 14 of 16 local shapes × all 16 remote shapes), all u32 heights",
  C07="advance = pointwise max, order-independent, never backwards, other logs untouched",
  C12="cancellation at every await of `Orderer::next` (symbolic poll count) loses nothing, item dequeued once",
  C13="one item through a 2-stage pipeline exactly once; cancellation of `next` (known finding)",
